@@ -261,3 +261,21 @@ PROPS["C18"] = dict(
                 quick=dict(shards=32, timeout=1800, env=dict(VERIF_C18_STRIDE=48)),
                 thorough=dict(shards=32, timeout=20000, env=dict(VERIF_C18_STRIDE=2, VERIF_C18_LONG=1)))],
 )
+
+PROPS["C12"] = dict(
+    level="exploration", engine="E1 unit + E3 session", bins=True,
+    technique="property-based testing and native fuzzing of every parser of peer / terminal bytes; MITM field mutation of real transfers (boundary values into protocol fields) with crash, memory and session-usable oracles",
+    level_text="(a) rapid-generated and coverage-guided byte streams built from a hostile token dictionary go through every parser that sees peer or terminal bytes (trigger detectors with history, zmodem, OSC52, "
+               "drag detection for three platforms, prompt input, escape table, config / action / source / target JSON, decodeString, version and size parsers, the three line readers, the tmux and VT100 strippers). "
+               "(b) real transfers on the session engine in which one or two fields (NUM, NAME members, SIZE, #DATA length, len/step acks, final ack, HASH and hash-ack members, COMP, MD5, EXIT, CFG and ACT members) are replaced "
+               "by boundary values: negative, zero, off-by-one, 2^31, 2^62, MaxInt64, non-numeric, empty, 1 MiB, wrong JSON type, truncated encodings; the victim is the real server child (c2s) or the in-process client (s2c). "
+               "Oracle: no crash and no recovered panic, both sides end within the bound, resident high-water mark within +512 MiB, and the session still passes a probe.",
+    level_note="Shard processes run under a 6 GiB address-space limit so that an honoured >= 2^31 length field is a crash rather than a stall of the machine. Decompression bombs are outside the statement.",
+    rule="non-trivial = (parsers) a non-empty stream; (roles) at least one rewrite was applied to a message that occurred; distinct by SHA-1 of the case JSON",
+    tests=[
+        dict(name="TestVF_C12Parsers", quick=dict(checks=40000, shards=8, timeout=600), thorough=dict(checks=4000000, shards=16, timeout=6000)),
+        dict(name="TestVF_C12Roles", env=dict(VERIF_CASE_LIMIT=300),
+             quick=dict(checks=320, shards=32, timeout=1200, vmem_kb=6291456), thorough=dict(checks=8000, shards=32, timeout=14000, vmem_kb=6291456)),
+        dict(name="FuzzVF_C12Parsers", rapid=False, thorough=dict(shards=1, timeout=400, fuzz="120s", par=16)),
+    ],
+)
